@@ -9,6 +9,11 @@ import PyamgV.Proofs.ExtC07Restart
 import PyamgV.Proofs.ExtC07Fgm
 import PyamgV.Proofs.ExtC07Kry
 import PyamgV.Proofs.ExtC07Vec
+import PyamgV.Proofs.ExtC07CGmres
+import PyamgV.Proofs.ExtC07CCert
+import PyamgV.Proofs.ExtC07CReal
+import PyamgV.Proofs.ExtC07CFinite
+import PyamgV.Model.ExtC07CExample
 import Mathlib.Analysis.Real.Sqrt
 
 /-! # C07 — Krylov iterates are the optimal elements of the Krylov space
@@ -31,7 +36,14 @@ Extension E11: restarted GMRES(MGS) (`gmres_restart_optimal`, monotonicity acros
 (`fgmres_optimal`: executable model of `_fgmres.py`, Householder--Arnoldi + Givens, any sequence of right
 preconditioners) and GMRES with Householder orthogonalisation (`gmres_householder_optimal_krylov`) have executable
 models (`Model/ExtC07Restart.lean`, `Model/ExtC07Hh.lean`, ops `ext_gmres_restart`, `ext_fgmres`, `ext_gmres_hh`)
-proved optimal end to end, also for the `Vector` instance the driver runs (`…_vec_…`). -/
+proved optimal end to end, also for the `Vector` instance the driver runs (`…_vec_…`).
+Extension E37: the **complex case**.  `Proofs/ExtC07C*.lean` redo the theory over a field with involution carrying a
+positive semidefinite Hermitian form measured in an ordered field (`HForm K F V`; `np.vdot` convention), and
+instantiate it for the recurrence models on `Vector CRat n` with `vecOps CRat.conj` -- the terms op `c07_iter … c`
+evaluates: `complex_cg_optimal` … `complex_mr_exact_line_search`.  Preconditioned CR with `M A = A M` is proved
+optimal, complex and real (`complex_cr_optimal`, `cr_commuting_preconditioner_optimal`); the GMRES least-squares
+characterisation is proved in the Hermitian setting (`complex_gmres_optimal_of_qr`); the complex certificate of the
+search oracle is checked by a checker proved sound (`complex_argmin_certificate_sound`, op `ext_c07c_argmin`). -/
 namespace PyamgV.Props.C07
 open PyamgV
 
@@ -214,6 +226,123 @@ example : (cgVec A₀ M₀ b₀ z₀ 0).rz ≠ 0 ∧ (cgVec A₀ M₀ b₀ z₀ 
     (cgVec A₀ M₀ b₀ z₀ 1).x ≠ (cgVec A₀ M₀ b₀ z₀ 2).x ∧
     (cgVec A₀ M₀ b₀ z₀ 2).x = #v[3/5, -1/5] ∧ vmv A₀ (#v[3/5, -1/5] : Vector Rat 2) = b₀ := cg_two_steps
 end example2
+
+/-! ### extension E37 — the complex case
+
+#### the recurrence models on Gaussian rationals (`vecOps CRat.conj A M` on `Vector CRat n`, op `c07_iter … c`) -/
+/-- the list `iterates step den getx k s` the driver prints: entry `i` is the `x` of state `i+1`, and no denominator was
+zero before it -/
+restate iterates_are_states := PyamgV.C07.CH.iterates_spec
+/-- CG (`_cg.py`), complex: `A`, `M` Hermitian, `A` positive definite ⇒ entry `i` of the printed list lies in
+`x₀ + K_{i+1}(MA, M r₀)` (complex span) and minimises the energy norm `re (eᴴ A e)` of the error over it -/
+restate complex_cg_optimal := PyamgV.C07.CH.cg_crat_optimal
+restate complex_cg_monotone := PyamgV.C07.CH.cg_crat_monotone
+/-- `dᴴ A d` is real for Hermitian `A`: the quantity compared is the full energy, not a projection of it -/
+restate complex_energy_is_real := PyamgV.C07.CH.energyC_im_zero
+/-- CGNR, complex: entry `i` minimises `‖b − A x‖₂` over `x₀ + K_{i+1}(M AᴴA, M Aᴴ r₀)` -/
+restate complex_cgnr_optimal := PyamgV.C07.CH.cgnr_crat_optimal
+/-- CGNE, complex: entry `i` lies in `x₀ + Aᴴ K_{i+1}(M A Aᴴ, M r₀)` and minimises `‖x* − x‖₂` over it -/
+restate complex_cgne_optimal := PyamgV.C07.CH.cgne_crat_optimal
+/-- CR, complex, **any Hermitian preconditioner commuting with `A`** (identity, `c I + d A`, …): entry `i` minimises
+`‖b − A x‖₂` over `x₀ + K_{i+1}(MA, M r₀)` -/
+restate complex_cr_optimal := PyamgV.C07.CH.cr_crat_optimal
+/-- steepest descent / minimal residual, complex: every step is the exact line search over `t ∈ ℚ(i)` -/
+restate complex_sd_exact_line_search := PyamgV.C07.CH.sd_crat_step_optimal
+restate complex_mr_exact_line_search := PyamgV.C07.CH.mr_crat_step_optimal
+/-- the instances found for `CRat` in the proofs are the ones of `Model/CRat.lean` the driver computes with -/
+restate complex_model_instances := PyamgV.C07.CH.crat_instances
+
+/-! #### the same for any field with involution and real part (`ReMap K F`), stated for the states `iter step k init` -/
+restate hermitian_cg_optimal := PyamgV.C07.CH.cg_hvec_optimal
+restate hermitian_cgnr_optimal := PyamgV.C07.CH.cgnr_hvec_optimal
+restate hermitian_cgne_optimal := PyamgV.C07.CH.cgne_hvec_optimal
+restate hermitian_cr_optimal := PyamgV.C07.CH.cr_hvec_optimal
+restate hermitian_cr_optimal_no_preconditioner := PyamgV.C07.CH.cr_hvec_optimal_noprec
+/-- an `n × n` Hermitian positive definite system is solved by the CG model in at most `n` steps -/
+restate hermitian_cg_solves_within_n_steps := PyamgV.C07.CH.cg_hvec_solves
+/-- `toFn` carries `vecOps star A M` onto the module operations with the Hermitian form `Σ conj(u_i) v_i` -/
+restate hermitian_vector_model_is_module_model := PyamgV.C07.CH.opsHomH_vec
+
+/-! #### preconditioned CR in the real case (`M A = A M`; was search only): the definition `crVec` op `c07_iter cr r` runs -/
+restate cr_commuting_preconditioner_optimal := PyamgV.C07.CH.cr_vec_optimal_commuting
+
+/-! #### abstract Hermitian theory (`HForm K F V`) -/
+/-- error `⟨·,·⟩`-orthogonal to `W` ⇒ minimal over `x₀ + W` -/
+restate hermitian_projection_optimal := PyamgV.CHerm.HForm.proj_optimal
+/-- residual orthogonal to `A W` ⇒ residual norm minimal over `x₀ + W` (no symmetry of `A`) -/
+restate hermitian_petrov_optimal := PyamgV.CHerm.petrov_optimal
+/-- `α = ⟨d, e⟩/⟨d, d⟩` minimises `‖e − t d‖` over the complex line -/
+restate hermitian_line_search_optimal := PyamgV.CHerm.line_search_optimal
+/-- the PCG invariant (residuals `M`-orthogonal, directions `A`-conjugate, `α`, `β` real) is inductive -/
+restate hermitian_pcg_invariant := PyamgV.CHerm.CPCG.pInv_succ
+restate hermitian_pcg_optimal_krylov := PyamgV.CHerm.CPCG.cpcg_optimal_krylov
+restate hermitian_pcg_directions_span_krylov := PyamgV.CHerm.CPCG.dirs_eq_kry
+restate hermitian_pcg_solves := PyamgV.CHerm.CPCG.cpcg_solves
+/-- the recurrence of `_cr.py` with any `M` is PCG in the inner product `⟨A·,·⟩` … -/
+restate cr_is_pcg_in_A_inner_product := PyamgV.CHerm.CKSim.cr_sim
+/-- … whose hypotheses hold when `M` is Hermitian and commutes with `A` -/
+restate cr_hypotheses_of_commuting := PyamgV.CHerm.CKSim.cr_hyp
+/-- the models with the operations of a module with a Hermitian form are the abstract sequences -/
+restate hermitian_cg_model_is_pcg := PyamgV.C07.CH.cg_refines
+restate hermitian_cr_model_is_crSeq := PyamgV.C07.CH.cr_refines
+
+/-! #### GMRES / FGMRES, Hermitian setting, algorithmic level (complex Givens: `Qᴴ Q = 1`) -/
+/-- orthonormal Arnoldi basis + Arnoldi relation + normal equations `Hᴴ(β e₀ − H y) = 0` ⇒ `x₀ + Σ y_j z_j` minimises the
+(preconditioned) residual norm over `x₀ + span_K{z_j}` -/
+restate complex_gmres_optimal_of_normal_equations := PyamgV.CHerm.CGmres.gmres_optimal
+/-- … the same from a unitary triangularisation with zero last row and a solved triangular system -/
+restate complex_gmres_optimal_of_qr := PyamgV.CHerm.CGmres.gmres_optimal_of_qr
+/-- the residual norm is the small least-squares functional `‖β e₀ − H y‖²` -/
+restate complex_gmres_residual_in_coordinates := PyamgV.CHerm.CGmres.resid_norm_coords
+/-- … hence a minimiser of the small problem gives the residual-optimal iterate -/
+restate complex_gmres_optimal_of_least_squares := PyamgV.CHerm.CGmres.gmres_optimal_of_lsq
+
+/-! #### the oracle of the failing-input search, complex case: an accepted certificate (`certVH`, conjugating `Vector`
+operations, run by op `ext_c07c_argmin` after the Hermitian test `isHermV` of the Gram matrix) is the minimiser of
+`re ((t − ·)ᴴ G (t − ·))` over `x0 + span_K{v_i}` for Hermitian positive semidefinite `G` -/
+restate complex_argmin_certificate_sound := PyamgV.C07.CH.certVH_crat_sound
+restate hermitian_argmin_certificate_sound := PyamgV.C07.CH.certVH_sound
+/-- Gram matrices `Bᴴ B` (kinds gmres, res, cgnr, cgne of the oracle) are positive semidefinite -/
+restate gram_matrix_psd := PyamgV.C07.CH.gram_psd
+
+/-! ### non-vacuity, complex: `A₁ = [[2, i], [−i, 3]]`, `M₁ = diag(1, 1/2)` satisfy the hypotheses of
+`complex_cg_optimal`, and the executable model over the Gaussian rationals does on it what the theorems say -/
+section example2c
+open PyamgV.C07 PyamgV.C07.CH PyamgV.C07.ExC
+
+example : IsHerm A₁ := by
+  intro i j; fin_cases i <;> fin_cases j <;> decide +kernel
+example : IsHerm M₁ := by
+  intro i j; fin_cases i <;> fin_cases j <;> decide +kernel
+example : IsHPD cratRe A₁ := by
+  intro v hv
+  have hne : v 0 ≠ 0 ∨ v 1 ≠ 0 := by
+    by_contra h
+    push_neg at h
+    exact hv (funext fun i => by fin_cases i <;> simp [h.1, h.2])
+  have key : cratRe.re ((dotH cratRe 2).h (linOf A₁ v) v) =
+      (v 0).re ^ 2 + ((v 0).re - (v 1).im) ^ 2 + 2 * (v 1).im ^ 2 +
+      ((v 0).im ^ 2 + ((v 0).im + (v 1).re) ^ 2 + 2 * (v 1).re ^ 2) := by
+    simp [dotH_h, linOf, matOf, A₁, Matrix.mulVec, dotProduct, Fin.sum_univ_two]
+    ring
+  rw [key]
+  have hz : ∀ z : CRat, z ≠ 0 → 0 < z.re ^ 2 + z.im ^ 2 := by
+    intro z hz
+    have := CRat.normSq_pos_of_ne hz
+    unfold CRat.normSq at this
+    nlinarith
+  rcases hne with h | h
+  · have := hz _ h
+    nlinarith [sq_nonneg ((v 0).re - (v 1).im), sq_nonneg ((v 0).im + (v 1).re), sq_nonneg (v 1).im, sq_nonneg (v 1).re]
+  · have := hz _ h
+    nlinarith [sq_nonneg ((v 0).re - (v 1).im), sq_nonneg ((v 0).im + (v 1).re), sq_nonneg (v 0).im, sq_nonneg (v 0).re]
+/-- the list op `c07_iter cg c` returns on this instance: two iterates, no breakdown, the second is the exact
+solution `(3/5, i/5)` -/
+example : cgOut.length = 2 ∧ cgOut[0]? ≠ cgOut[1]? ∧ cgOut[1]? = some s₁ ∧ vmv A₁ s₁ = b₁ := cg_two_steps
+/-- `M₁` does not commute with `A₁`, and CR with it indeed misses the solution after two steps: the hypothesis
+`M A = A M` of `complex_cr_optimal` cannot be dropped -/
+example : crOut.length = 2 ∧ crOut[1]? ≠ some s₁ := cr_two_steps_noncommuting
+end example2c
 
 /-- the square-root hypotheses of the GMRES theorems are satisfiable (over `ℝ`) -/
 example : ∃ sqrt : ℝ → ℝ, (∀ a, 0 ≤ a → sqrt a * sqrt a = a) ∧ (∀ a, 0 ≤ sqrt a) :=
